@@ -170,6 +170,7 @@ class Gen:
     self.depth -= 1
 
   def NewRule(self):
+    self.rule_pcalls = []
     self.depth = 0
     self.scope_locals = {0: set()}
     self.nested_names = {0: set()}
@@ -220,6 +221,13 @@ class Gen:
                   self.Expr(t, env, depth + 1, False),
                   self.Expr(t, env, depth + 1, False))
       if c == 'pcall':
+        # the same call written twice: each occurrence is its own conjunct
+        again = [pc for pt, pc, vs in self.rule_pcalls
+                 if pt == t and vs <= set(env)]
+        if again and r.random() < 0.7:
+          self.features.add('pcall_repeated')
+          import copy as _copy
+          return _copy.deepcopy(r.choice(again))
         cands = [s for s in self.sigs if s.functional and
                  s.Type('logica_value') == t]
         if cands:
@@ -230,7 +238,9 @@ class Gen:
                   (f in s.params or not s.inline) and
                   (IsPositional(f) or s.inline or r.random() < 0.7)]
           if all(self.Scalar(dict(s.fields)[f]) for f, _ in args):
-            return PCall(s.name, args)
+            call = PCall(s.name, args)
+            self.rule_pcalls.append((t, call, set(AllVarNames(call))))
+            return call
         return self.Expr(t, env, depth + 1, False)
       if c == 'elem':
         self.features.add('element')
@@ -365,6 +375,44 @@ class Gen:
           uniq.append(it)
       self.features.add('inc_filter')
       return [Inc(Var(v), ListE(uniq))]
+    if kind == 'alt' and depth == 0 and r.random() < 0.3 and scal:
+      cands = [s for s in self.Materialised()
+               if sum(1 for _, ft in s.fields if self.Scalar(ft)) >= 1 and
+               all(self.Scalar(ft) for _, ft in s.fields)]
+      if cands:
+        s = r.choice(cands)
+        # one argument differs by a constant between the alternatives, the
+        # others are bound variables / fresh variables shared by both
+        fields = list(s.fields)
+        k = r.randrange(len(fields))
+        shared = []
+        for i, (f, ft) in enumerate(fields):
+          if i == k:
+            shared.append(None)
+          else:
+            same = self.VarsOf(env, ft)
+            if same and r.random() < 0.6:
+              shared.append(Var(r.choice(same)))
+            else:
+              v = self.Fresh(env)
+              env[v] = ft
+              shared.append(Var(v))
+        vals = [v for v in s.values.get(fields[k][0], []) if v != NULL] or [
+            self.Const(fields[k][1])]
+        c1 = Lit(r.choice(vals))
+        c2 = Lit(self.Const(fields[k][1]))
+
+        def Alt(c):
+          import copy as _copy
+          return [Atom(s.name, [(f, _copy.deepcopy(shared[i]) if i != k else c)
+                                for i, (f, _) in enumerate(fields)])]
+        self.features.add('disjunction')
+        self.features.add('disjunction_of_atoms')
+        out = [Or([Alt(c1), Alt(c2)])]
+        if r.random() < 0.5:
+          self.features.add('disjunction_repeated_swapped')
+          out.append(Or([Alt(c2), Alt(c1)]))
+        return out
     if kind == 'alt' and depth == 0:
       self.features.add('disjunction')
       alts = []
@@ -476,6 +524,22 @@ class Gen:
                                 env))
     for _ in range(r.randint(0, p['max_extra'])):
       body += self.Extra(env)
+    # the same functional call written twice (two separate conjuncts by the
+    # documented meaning, so a multi-valued function multiplies)
+    funcs = [s for s in self.sigs if s.functional and not s.inline and
+             self.Scalar(s.Type('logica_value')) and
+             all(self.Scalar(ft) for _, ft in s.fields)]
+    if funcs and r.random() < 0.12:
+      import copy as _copy
+      s = r.choice(funcs)
+      args = [(f, self.Expr(ft, env, 1, False)) for f, ft in s.fields
+              if f != 'logica_value' and IsPositional(f)]
+      call = PCall(s.name, args)
+      for _ in range(2):
+        v = self.Fresh(env)
+        env[v] = s.Type('logica_value')
+        body.append(Unify(Var(v), _copy.deepcopy(call)))
+      self.features.add('pcall_repeated')
     r.shuffle(body)
     return body
 
